@@ -50,7 +50,11 @@ type (
 	}
 	// ServerConnectionProvider provides the currently connected server connection for a player.
 	ServerConnectionProvider interface {
+		// ConnectedServer returns the server connection of the responder's player.
 		ConnectedServer() ServerConnection
+		// ConnectedServerOf returns the server connection of the given player,
+		// or nil if that player is not connected to a server.
+		ConnectedServerOf(player Player) ServerConnection
 	}
 	// ServerConnection represents a server connection for a player.
 	ServerConnection interface {
@@ -188,11 +192,12 @@ func (r *bungeeCordMessageResponder) prepareForwardMessage(in io.Reader) (forwar
 }
 
 func (r *bungeeCordMessageResponder) sendServerResponse(in []byte) {
-	if len(in) == 0 {
-		return
-	}
-	serverConn := r.ConnectedServer()
-	if serverConn == nil {
+	r.sendTo(r.ConnectedServer(), in)
+}
+
+// sendTo writes a BungeeCord plugin message to the given server connection.
+func (r *bungeeCordMessageResponder) sendTo(serverConn ServerConnection, in []byte) {
+	if len(in) == 0 || serverConn == nil {
 		return
 	}
 	ch := Channel(serverConn.Protocol())
@@ -201,7 +206,8 @@ func (r *bungeeCordMessageResponder) sendServerResponse(in []byte) {
 
 func (r *bungeeCordMessageResponder) processForwardToPlayer(in io.Reader) {
 	r.readPlayer(in, func(player Player) {
-		r.sendServerResponse(r.prepareForwardMessage(in))
+		// deliver to the server the named player is on, not the requester's
+		r.sendTo(r.ConnectedServerOf(player), r.prepareForwardMessage(in))
 	})
 }
 
@@ -435,7 +441,7 @@ func (r *bungeeCordMessageResponder) processKickRaw(in io.Reader) {
 
 func (r *bungeeCordMessageResponder) processGetPlayerServer(in io.Reader) {
 	r.readPlayer(in, func(player Player) {
-		s := r.ConnectedServer()
+		s := r.ConnectedServerOf(player) // the named player's server
 		if s == nil {
 			return
 		}
